@@ -166,6 +166,8 @@ struct Ctx
   // per op: number of fault sites seen per kind (for single-fault enumeration)
   std::vector<std::array<long, fault::KINDS>> op_sites;
   bool nontrivial = false;
+  std::vector<unsigned> sched_out; // scheduler choices actually made (concurrent engine)
+  std::uint64_t interleaving = 0;  // hash of the sequence of synchronisation events
 
   void ev(std::string const &s)
   {
